@@ -23,6 +23,8 @@ def transition(cfg, hist, a, props, before_cache=None):
         before = w.snapshot()
         if before_cache is not None:
             before_cache["snap"] = before
+    else:
+        w.pre_read()  # every world an action is applied to has been looked at (read-only) in its current instant
     nev = len(w.evq)
     raised, placed, new_loans = w.apply(a)
     tr = Tr()
@@ -30,6 +32,7 @@ def transition(cfg, hist, a, props, before_cache=None):
     tr.before = before
     tr.events = list(w.evq[nev:])
     tr.cfg = cfg
+    tr.hist = list(hist)
     try:
         tr.after = w.snapshot()
     except Exception as x:  # noqa: the read-only public API must keep working in every reachable state
@@ -200,10 +203,13 @@ def conformance(cfg, hist):
     return None
 
 
-def lasso(cfg, prefix, cycle, reps, props, res, on_violation=None):
+def lasso(cfg, prefix, cycle, reps, props, res, on_violation=None, offset=0):
     """Runs prefix . cycle^reps on ONE live exchange with the monitors on every step (long histories: hundreds of
-    orders, many re-indexings of the open-order list)."""
+    orders, many re-indexings of the open-order list). offset: number of get_open_orders() calls a strategy makes before
+    anything else - it shifts WHICH traversal of the open-order list is the one that re-indexes it."""
     w = World(cfg)
+    for _ in range(offset):
+        call(w.e.get_open_orders())
     hist = []
     before = None
     for a in list(prefix) + list(cycle) * reps:
@@ -219,6 +225,7 @@ def lasso(cfg, prefix, cycle, reps, props, res, on_violation=None):
         tr.before, tr.after = before, w.snapshot()
         tr.events = list(w.evq[nev:])
         tr.cfg = cfg
+        tr.hist = None  # a live run: the state before this step cannot be rebuilt cheaply
         res.transitions += 1
         bad = []
         for p in props:
